@@ -102,13 +102,13 @@ theorem c10ok_agree (c : Cfg) (core : Ty) (l : BLeaf) (h : c10ok core l = true) 
   cases core <;> cases l <;> simp [c10ok] at h <;>
     first
     | (simp [valCoreG, textSem, binSem]; done)
-    | (simp [valCoreG, textSem, binSem, textLeaf, leafText, textScalarVal, valLeaf, leafPrim, visitPrim, Prim.asInt,
+    | (simp [valCoreG, textSem, binSem, textLeaf, leafText, textScalarVal, valLeaf, u16Leaf, leafPrim, visitPrim, Prim.asInt,
         toI64_fmtInt _ h]; done)
-    | (simp [valCoreG, textSem, binSem, textLeaf, leafText, textScalarVal, valLeaf, leafPrim, visitPrim, Prim.asInt,
+    | (simp [valCoreG, textSem, binSem, textLeaf, leafText, textScalarVal, valLeaf, u16Leaf, leafPrim, visitPrim, Prim.asInt,
         toU64_fmtNat _ h]; done)
-    | (simp [valCoreG, textSem, binSem, textLeaf, leafText, textScalarVal, valLeaf, leafPrim, visitPrim]; done)
+    | (simp [valCoreG, textSem, binSem, textLeaf, leafText, textScalarVal, valLeaf, u16Leaf, leafPrim, visitPrim]; done)
     | (rename_i b; cases b <;>
-        simp [valCoreG, textSem, binSem, textLeaf, leafText, textScalarVal, valLeaf, leafPrim, visitPrim, Scalar.toBool])
+        simp [valCoreG, textSem, binSem, textLeaf, leafText, textScalarVal, valLeaf, u16Leaf, leafPrim, visitPrim, Scalar.toBool])
 
 /-- a key that means the same in both formats: a string, or a token id the resolver knows under a name
 that the Windows-1252 decoding leaves unchanged (ASCII identifiers). -/
@@ -192,15 +192,13 @@ What remains at reference level: the text side (`valueOfText` is a reference ove
 text parser / deserializer models belong to C01/C02/C07), float leaves (equal only up to one f32 ulp) and the
 composition of DATE leaves into documents — the interpreter has no date target; the date leaf itself is
 `C10_flat_date_leaf` below. -/
-theorem C10_flat_end_to_end (c : Cfg) (decl : Fields) (d : BDoc) (h : c10doc c decl d = true)
-    (hu : noU16F decl = true) :
+theorem C10_flat_end_to_end (c : Cfg) (decl : Fields) (d : BDoc) (h : c10doc c decl d = true) :
     valueOfText c (.plain (.struct decl)) d = valueOfBin c (.plain (.struct decl)) d ∧
     deTape c (.plain (.struct decl)) (tapeFields d 0) = valueOfBin c (.plain (.struct decl)) d ∧
     deOndemand c (.plain (.struct decl)) (tokensOf d) = valueOfBin c (.plain (.struct decl)) d ∧
     deStream c (.plain (.struct decl)) (tokensOf d) = valueOfBin c (.plain (.struct decl)) d := by
   obtain ⟨h1, h2, h3⟩ := c10doc_fields c decl d.len d rfl h
   obtain ⟨e1, e2, e3⟩ := C04_tape_eq_ondemand c (.plain (.struct decl)) d h2 (by simpa [fitsRoot] using h3)
-    (by simpa [noU16Root, noU16] using hu)
   exact ⟨C10_flat_spec c decl d h1, e3, by rw [← e1]; exact e3, by rw [← e2]; exact e3⟩
 
 /-- the DATE leaf (re-exported from `Proofs/DateLeaf.lean`): for every valid date the binary format can
